@@ -31,6 +31,17 @@ BUDGET = {'quick': 60, 'thorough': 1200}
 def multi_roots(rng, spec, base_root, k):
     """k roots with distinct config names over one spec"""
     roots = []
+    # members whose contexts are LISTS of files with the same file names in different directories ([base.json, exp_a/override.json] vs
+    # [base.json, exp_b/override.json]) overriding a value of a config that every member `uses`
+    same_stem = None
+    if rng.random() < 0.3:
+        r0 = Ref(spec, {kk: v for kk, v in base_root.items() if kk != 'context'})
+        if r0.error is None:
+            sites = [(inst, k_, v_) for inst in r0.instances.values() for k_, v_ in inst['values'].items()
+                     if not (isinstance(v_, dict) and 'class' in v_) and inst['file'] != base_root['file']]
+            if sites:
+                same_stem = rng.choice(sites)
+                spec['context_files']['ctxs/base.json'] = {'zz_unused_key': 1}
     for i in range(k):
         root = copy.deepcopy({kk: v for kk, v in base_root.items() if kk != 'context'})
         fname = root['file']
@@ -62,7 +73,16 @@ def multi_roots(rng, spec, base_root, k):
         new_name = fname.rsplit('.', 1)[0].rsplit('_mc', 1)[0] + f'_mc{i}.' + fname.rsplit('.', 1)[1]
         spec['files'][new_name] = f
         root['file'] = new_name
-        if rng.random() < 0.3:
+        if same_stem is not None:
+            inst_, k_, v_ = same_stem
+            val = v_
+            for _ in range(i + 1):
+                val = S.same_type_value(rng, val)
+            ns_ = '::'.join(inst_['ns'])
+            spec['context_files'][f'ctxs/exp_{i}/override.json'] = {'for_namespaces': {ns_: {k_: val}}} if ns_ else {k_: val}
+            root['context'] = [{'kind': 'file', 'file': 'ctxs/base.json'}, {'kind': 'file', 'file': f'ctxs/exp_{i}/override.json'}]
+            root['context_single'] = False
+        elif rng.random() < 0.3:
             S.add_context(rng, spec, root, S.DEFAULT_FEAT)
         if rng.random() < 0.15 and spec.get('free_ns_words') and not root.get('namespace'):
             root['namespace'] = rng.choice(spec['free_ns_words'])
